@@ -150,6 +150,28 @@ with rd_cong_round :=
   rd_cong1 atan; rd_cong1 sinh; rd_cong1 cosh; rd_cong1 tanh; rd_cong1 Rabs; rd_cong_exp; rd_cong_rpower; rd_cong_phi
 with rd_cong := rd_cong_round; rd_cong_round; rd_cong1 Rinv.
 
+(* one scripted step  FROM = TO  (the pairing is proposed by the harness, the equality is proved here) *)
+Ltac rd_eq :=
+  first
+  [ reflexivity
+  | (apply rd_exp_opp; rd_arg)
+  | (apply rd_rpower_opp; rd_arg)
+  | (apply f_equal2; rd_arg)
+  | (apply f_equal; first [ rd_arg | rd_list ])
+  | rd_arg ].
+
+Ltac rd_ring_arg := first [ reflexivity | solve [ timeout 10 ring ] ].
+
+Ltac rd_cong_inv :=
+  repeat match goal with
+  | |- context [/ ?a] =>
+      match goal with
+      | |- context [/ ?b] =>
+          tryif constr_eq a b then fail else
+          rd_replace (/ a) (/ b) ltac:(apply (f_equal Rinv); rd_ring_arg)
+      end
+  end.
+
 Ltac rd_final :=
   first
   [ reflexivity
@@ -163,8 +185,11 @@ Ltac rd_last :=
   | solve [ timeout 20 nra ] ].
 
 Ltac rd_solve :=
-  first [ reflexivity | solve [ timeout 20 ring ]
-        | solve [ rd_norm; first [ solve [ timeout 20 ring ] | (rd_cong; rd_final) ] ]
+  first [ reflexivity
+        | solve [ timeout 20 ring ]
+        | solve [ rd_norm; first [ reflexivity | solve [ timeout 20 ring ] | solve [ rd_cong_inv; timeout 20 ring ] ] ]
+        | solve [ timeout 30 (field; rd_side) ]
+        | solve [ rd_norm; rd_cong; rd_final ]
         | solve [ rd_cong; rd_final ]
-        | rd_final
         | rd_last ].
+
